@@ -242,6 +242,24 @@ def main():
     good_sum = header_checksum(arch)
     wrong_sum = ("%02x" % (int(good_sum[:2], 16) ^ 0xFF)) + good_sum[2:]
 
+    def invalid_dict(a_):
+        """an archive whose header checksum verifies but whose dictionary is inconsistent: one more chunk descriptor, of size zero, that no rebuild
+        index refers to and that carries the checksum of the first chunk in use"""
+        import pydecode
+        ds_ = int.from_bytes(a_[6:14], "little")
+        dict_ = a_[14:14 + ds_]
+        doff_ = int.from_bytes(a_[14 + ds_:22 + ds_], "little")
+        first = next(v for (no, wt, v) in pydecode._msg(dict_) if no == 7)
+        cks = next(v for (no, wt, v) in pydecode._msg(first) if no == 1)
+        desc = bytes([0x0A, len(cks)]) + cks                      # field 1 (checksum); sizes and offset left at 0
+        extra = bytes([0x3A, len(desc)]) + desc                    # field 7 (chunk descriptor)
+        d2 = dict_ + extra
+        h = a_[:6] + len(d2).to_bytes(8, "little") + d2 + (doff_ + len(extra)).to_bytes(8, "little")
+        h += hashlib.blake2b(h, digest_size=64).digest()
+        return h + a_[14 + ds_ + 72:]
+    sys.path.insert(0, os.path.dirname(os.path.abspath(__file__)))
+    open(os.path.join(fx, "invalid_dict.cba"), "wb").write(invalid_dict(arch))
+
     def edited(n_keep):
         idx = list(order)
         rnd.shuffle(idx)
@@ -271,6 +289,9 @@ def main():
     RangeHandler.data["/invalid.cba"] = bytes(bad)
     RangeHandler.data["/source2.cba"] = arch2
     RangeHandler.data["/invalid2.cba"] = bytes(bad2)
+    open(os.path.join(fx, "invalid_dict2.cba"), "wb").write(invalid_dict(arch2))
+    RangeHandler.data["/invalid_dict.cba"] = invalid_dict(arch)
+    RangeHandler.data["/invalid_dict2.cba"] = invalid_dict(arch2)
     # late = "bad_chunk": valid header, every stored chunk damaged (one byte in every 300 of the chunk data region)
     ds = int.from_bytes(arch[6:14], "little")
     hdr_len = 14 + ds + 8 + 64
@@ -328,7 +349,7 @@ def main():
             else:
                 k = rnd.choice([0, 1, 2])
                 prior = [edited(len(order) // 2), source[: len(source) // 2] + rnd.randbytes(5000), edited(len(order)) + source][k]
-                if m["cmd"] == "clone" and m["inplace"] and (m["pin"] == "mismatch" or m["arch"] == "invalid") and rnd.random() < 0.5:
+                if m["cmd"] == "clone" and m["inplace"] and (m["pin"] == "mismatch" or m["arch"] != "valid") and rnd.random() < 0.5:
                     prior = source      # nothing would have to be fetched: the refusal must not depend on that
             open(out, "wb").write(prior)
             if m["out"].startswith("bd_"):
@@ -347,7 +368,7 @@ def main():
                 args += ["--verify-header", wrong_sum]
             for i in range(m["nseeds"]):
                 sp = os.path.join(d, "seed%d.bin" % i)
-                refused_early = m["pin"] == "mismatch" or m["arch"] == "invalid"
+                refused_early = m["pin"] == "mismatch" or m["arch"] != "valid"
                 open(sp, "wb").write((source if refused_early else edited(len(order) // 2)) if i == 0 else rnd.randbytes(20000))
                 roles[sp] = "seed"
                 args += ["--seed", sp]
@@ -358,7 +379,7 @@ def main():
                 stdin_data = edited(len(order) // 3)
             if m["verify_out"]:
                 args.append("--verify-output")
-            name = ("invalid%s.cba" if m["arch"] == "invalid" else "source%s.cba") % sfx
+            name = ("invalid%s.cba" if m["arch"] == "invalid" else "invalid_dict%s.cba" if m["arch"] == "invalid_dict" else "source%s.cba") % sfx
             if late:
                 name = "damaged.cba"
             raced = None
